@@ -143,10 +143,9 @@ def C01_exampleLine : List Tok := [
   ⟨.closeBrace, ['}'], 15⟩, ⟨.ws, [' '], 16⟩, ⟨.lineComment, ['-', '-', ' ', 'c'], 17⟩, ⟨.newline, ['\n'], 21⟩]
 
 example : WellSpelled toyCharSpec C01_exampleLine := by decide
-theorem c01_exampleLine_chain : Chain 0 C01_exampleLine := by
-  unfold C01_exampleLine; repeat' constructor
+example : Chain 0 C01_exampleLine := by unfold C01_exampleLine; repeat' constructor
 example : lex toyCharSpec (render C01_exampleLine) = C01_exampleLine :=
-  C01_lex_render_positions toyCharSpec 0 _ (by decide) c01_exampleLine_chain
+  C01_lex_render_positions toyCharSpec 0 _ (by decide) (by unfold C01_exampleLine; repeat' constructor)
 example : ¬ WellSpelled toyCharSpec [⟨.word, ['a', 'b'], 0⟩, ⟨.word, ['c', 'd'], 2⟩] := by decide
 example : ¬ WellSpelled toyCharSpec [⟨.minus, ['-'], 0⟩, ⟨.minus, ['-'], 1⟩] := by decide
 example : ¬ WellSpelled toyCharSpec [⟨.int, ['0', '1'], 0⟩] := by decide
